@@ -1,7 +1,7 @@
 SPECIFICATION Spec
 CONSTANTS
   MaxOps = 3
-  ObjNames = {"T1", "T2", "T3", "S0", "S1", "S2", "S2r", "L2", "L3", "I2"}
+  ObjNames = {"T1", "T2", "S1", "S2", "S2r", "L2", "L3", "I2"}
   CfgNames = {"ap", "ah", "up", "uh"}
 INVARIANT PrintStable
 INVARIANT PrintIsFunction
